@@ -129,7 +129,9 @@ func (g *gettyClientHandler) OnCron(session getty.Session) {
 
 func (g *gettyClientHandler) transferHeartBeat(session getty.Session, msg message.HeartBeatMessage) error {
 	rpcMessage := message.RpcMessage{
-		ID:         int32(g.idGenerator.Inc()),
+		// heart-beats share the id space of ordinary requests: the pending-future
+		// table is keyed by message id, so ids must not collide
+		ID:         int32(GetGettyRemotingClient().idGenerator.Inc()),
 		Type:       message.GettyRequestTypeHeartbeatRequest,
 		Codec:      byte(codec.CodecTypeSeata),
 		Compressor: 0,
